@@ -419,12 +419,7 @@ def directed_c01():
     return D
 
 
-C01_HELPERS = """func H2(x int) (_ Iter[int]) {
-	Yield(x + 1000)
-	Yield(x + 2000)
-	return
-}
-"""
+C01_HELPERS = gen.C01_HELPERS_TEXT
 
 
 def build_c01_corpus(ctx, corp, n_exh, n_sampled, weights=None, max_nodes=12, sample_seed_off=0, transform=None):
@@ -582,6 +577,10 @@ def corpus_check(ctx, fam, build, K, extra_adv, level_extra, assumptions, floors
                 for t in p.tags:
                     decided_tags[t] = decided_tags.get(t, 0) + 1
     mism += sv_mism_extra
+    tw_n, tw_m = (0, 0)
+    if ref_tree == "src":
+        tw_n, tw_m = corpus.twin_validate(ctx, main["corp"], main["res"])
+        mism += tw_m
     extra = {
         "programs": programs,
         "programs_examined": programs,
@@ -598,6 +597,8 @@ def corpus_check(ctx, fam, build, K, extra_adv, level_extra, assumptions, floors
         "compile_s": round(sum(r["corp"].compile_s for r in runs), 1),
         "feature_tags_decided": dict(sorted(decided_tags.items())),
         "native_cross_checked_paths_extra_runs": sv_extra,
+        "reference_twins_written": len(main["corp"].twin_where),
+        "reference_logs_cross_checked_against_native_twin": tw_n,
         "details": details[:30],
     }
     if main["second"]:
